@@ -272,15 +272,16 @@ def same_float(a, b):
 def as_float(a):
     """Series -> float64 array; exact for float64/float32/int.  An object series may hold anything the equations
     produced (Python's `(-2.0) ** 0.5` is complex): non-real elements become NaN."""
-    try:
+    a = np.asarray(a)
+    if a.dtype != object:
         return np.asarray(a, dtype=float)
-    except (TypeError, ValueError):
-        def one(x):
-            try:
-                return float(x)
-            except (TypeError, ValueError):
-                return float('nan')
-        return np.array([one(x) for x in a], dtype=float)
+
+    def one(x):
+        try:
+            return float('nan') if isinstance(x, (complex, np.complexfloating)) else float(x)
+        except (TypeError, ValueError):
+            return float('nan')
+    return np.array([one(x) for x in a], dtype=float)
 
 
 def same_arrays(d1, d2):
@@ -619,6 +620,33 @@ def with_inline_verbatim(rng, prog, pool=None):
             rhs = gs.Bin('+', rhs, v) if rng.random() < 0.5 else gs.Bin('*', v, rhs)
         out.append(gs.Equation(st.lhs, rhs))
     return gs.Program(out)
+
+
+# {parameters} and <errors> may carry ANY identifier, Python keywords included (`{lambda}`, `{del}`, `<in>`): the code
+# reads `self._lambda[t]`, the normalised equation says `lambda[t]`.  (A bare variable cannot be a keyword — rejected —
+# and a name used both as a series and as a real keyword of the script is a SymbolError, so the keywords the grammar
+# itself uses — if, else, and, or, not — are left out.)
+KEYWORD_LIKE = ['lambda', 'del', 'in', 'is', 'None', 'True', 'False', 'pass', 'for', 'as', 'class', 'def', 'from',
+                'global', 'import', 'return', 'while', 'with', 'yield', 'try', 'assert', 'raise']
+
+
+def with_keyword_names(rng, prog):
+    """Parameters and errors renamed to Python keywords (returns (program, names used); unchanged when it has none)."""
+    kinds = {}
+    for st in equations(prog):
+        for t in [st.lhs] + gs.terms_of(st.rhs):
+            kinds.setdefault(t.name, set()).add(t.kind)
+    cands = [nm for nm, k in kinds.items() if k <= {'param', 'error'}]
+    if not cands:
+        return prog, []
+    new = rng.sample(KEYWORD_LIKE, min(len(cands), len(KEYWORD_LIKE)))
+    mapping = dict(zip(cands, new))
+    return rename_series(prog, mapping), sorted(mapping.values())
+
+
+def keyword_named(prog):
+    import keyword
+    return sorted(nm for nm in gs.all_names(prog) if keyword.iskeyword(nm))
 
 
 def shadowed_function_roots(prog):
